@@ -143,7 +143,13 @@ def parse_function(src):
     for ln in lines[1:-1]:
         toks = tokenize(ln)
         p = P(toks, vars_, arr, ptrs)
-        if toks[:3] == ["int64_t", "offset", "="] and toks[3:] == ["0", ";"]:
+        if toks[:3] == ["int64_t", "offset", "="]:
+            # the declaration of the running offset: any initial value (0 in the original text)
+            if toks[3:] == ["0", ";"]:
+                continue
+            p.i = 3; e = p.sum(); p.eat(";"); body.append(["set", e])
+            if p.i != len(toks):
+                raise ParseError("trailing tokens in %r" % ln)
             continue
         if toks[0] == "offset" and toks[1] == "+" and toks[2] == "=":
             if arr: raise ParseError("offset updated after arr was taken")
